@@ -8,6 +8,9 @@ CONSTANTS
   DevTruncAll = FALSE
   DevSwallowBreak = FALSE
   DevSplitLast = FALSE
+  DevSortBreakStops = FALSE
+  DevSortEmptyNoComplete = FALSE
+  DevSpaceCountsKeyless = FALSE
 CHECK_DEADLOCK FALSE
 INVARIANT Composition
 INVARIANT LimitIsSlice
